@@ -29,6 +29,9 @@ type sess struct {
 	name string
 	view []*msg // messages announced to this session, in order
 	seen int
+	// saved: UIDs of the last SEARCH RETURN (SAVE) in the current selection
+	// ("$", RFC 5182); nil after (re-)selecting
+	saved map[uint32]bool
 }
 
 type world struct {
